@@ -163,3 +163,118 @@ R.spec(GA, "BaseGASampler.get_parent_population", variant="ids-are-numbers", pro
        cases=[case("gen0", when="generation == 0", ensures=["len(result) == 0"]),
               case("ok", any_outcome=True, ensures_return=["cached_parents_by_id(self, study, generation, result)"])],
        modifies=["L:*", "D:*:dict<str,val>", "G:is_tuple"])
+
+
+# --- C14, grid sampler: the ids still to be visited ---------------------------------------------------------------------------------
+GR = "optuna/samplers/_grid.py"
+import optuna.samplers._grid as _grid  # noqa: E402
+R.classes.update({"GridSampler": _grid.GridSampler})
+R.schema("GridSampler", {"_n_min_trials": "int"})
+R.spec(GR, "GridSampler._same_search_space", trusted=True, types={"search_space": "Any"}, returns_kind="bool",
+       cases=[case("ok", returns="same_space(self, search_space)")], modifies=[],
+       note="pure comparison of two grids (uninterpreted)")
+R.spec("optuna/trial/_frozen.py", "FrozenTrial.system_attrs", inline=True)
+R.spec("optuna/trial/_state.py", "TrialState.is_finished", inline=True)
+
+
+@R.specfunc()
+def same_space(eng, st, sampler, space):
+    return SV(KBool, uf("grid_same_space", I, val_sort(), z3.BoolSort())(sampler.term, eng.coerce(st, space, KVal).term))
+
+
+R.spec("optuna/storages/_base.py", "BaseStorage.get_all_trials", trusted=True, variant="grid", types={"states": "Any"},
+       returns_kind="list[FrozenTrial]",
+       cases=[case("missing", when="nondet()", raises="KeyError"),
+              case("ok", ensures=["fresh(result)", "grid_attrs_wf(result)"])],
+       note="assumed: the study's trials; record schema of the sampler's own attributes: grid_id is an int")
+
+
+def _gattr(eng, st, t, name):
+    d = eng.get_field(st, t, "_system_attrs")
+    key = SV(KStr, z3.StringVal(name))
+    return eng.dict_has(st, d, key), eng.dict_get(st, d, key).term
+
+
+@R.specfunc()
+def grid_attrs_wf(eng, st, trials):
+    V = val_sort()
+    i = z3.Int("ga_i")
+    t = eng.list_get(st, trials, i)
+    has, v = _gattr(eng, st, t, "grid_id")
+    has2, _ = _gattr(eng, st, t, "search_space")
+    return SV(KBool, qforall([i], z3.Implies(z3.And(0 <= i, i < eng.list_len(st, trials)),
+                                             z3.And(t.term > 0, z3.Implies(has, z3.And(V.is_vint(v), has2)))), patterns=[t.term]))
+
+
+def _counted(eng, st, self_sv, t):
+    """The trial carries a grid id of THIS sampler's grid."""
+    has, _ = _gattr(eng, st, t, "grid_id")
+    _, sp = _gattr(eng, st, t, "search_space")
+    return z3.And(has, uf("grid_same_space", I, val_sort(), z3.BoolSort())(self_sv.term, sp))
+
+
+@R.specfunc()
+def grid_ids_ok(eng, st, self_sv, result, part=None):
+    """Every returned id is a grid index in range that no FINISHED trial of this grid carries; and if nothing is returned,
+    every grid index is carried by some finished trial of the listed ones (so stopping is not premature)."""
+    trials = st.ghost.get("grid_trials")
+    if trials is None:
+        return SV(KBool, z3.BoolVal(False))
+    V = val_sort()
+    n = eng.get_field(st, self_sv, "_n_min_trials").term
+    j, i, g = z3.Int("gi_j"), z3.Int("gi_i"), z3.Int("gi_g")
+    e = eng.list_get(st, result, j).term
+    t = eng.list_get(st, trials, i)
+    _, gid = _gattr(eng, st, t, "grid_id")
+    stt = eng.get_field(st, t, "state").term
+    fin_with = lambda x: z3.And(0 <= i, i < eng.list_len(st, trials), _counted(eng, st, self_sv, t), stt != 0, stt != 4, V.i(gid) == x)
+    a = qforall([j], z3.Implies(z3.And(0 <= j, j < eng.list_len(st, result)),
+                                z3.And(0 <= e, e < n, z3.Not(z3.Exists([i], fin_with(e))))), patterns=[e])
+    from pyvc import lib
+    b = z3.Implies(eng.list_len(st, result) == 0,
+                   qforall([g], z3.Implies(z3.And(lib.idx_query(st, g), 0 <= g, g < n), z3.Exists([i], fin_with(g))), patterns=[lib.idx_query(st, g)]))
+    return SV(KBool, {"a": a, "b": b}.get(part, z3.And(a, b)))
+
+
+@R.specfunc()
+def grid_ids_in_range_unfinished(eng, st, self_sv, result):
+    return grid_ids_ok(eng, st, self_sv, result, "a")
+
+
+@R.specfunc()
+def grid_empty_means_done(eng, st, self_sv, result):
+    return grid_ids_ok(eng, st, self_sv, result, "b")
+
+
+@R.specfunc()
+def remember_grid_trials(eng, st, trials):
+    st.ghost["grid_trials"] = trials
+    return SV(KBool, z3.BoolVal(True))
+
+
+R.contracts[("optuna/storages/_base.py", "BaseStorage.get_all_trials#grid")].cases[1].ensures.append("remember_grid_trials(result)")
+
+R.spec(GR, "GridSampler._get_unvisited_grid_ids", props=["C14"], types={"study": "Study"}, returns_kind="list[int]",
+       requires=["self._n_min_trials >= 0"],
+       locals={"visited_grids": "list[int]", "running_grids": "list[int]", "unvisited_grids": "set[int]"},
+       cases=[case("any", any_outcome=True, ensures_return=["grid_ids_in_range_unfinished(self, result)", "grid_empty_means_done(self, result)"])],
+       call_variants={"BaseStorage.get_all_trials": "grid"},
+       loops={0: loop(index="_i", invariant=["0 <= _i and _i <= len(_seq)", "fresh(visited_grids) and fresh(running_grids)",
+                                             "visited_inv(self, _seq, _i, visited_grids)"],
+                      locals={"visited_grids": "list[int]", "running_grids": "list[int]"}, modifies=["L:*:list<int>", "G:is_tuple"])},
+       modifies=["L:*", "S:*", "G:is_tuple"])
+
+
+@R.specfunc()
+def visited_inv(eng, st, self_sv, trials, upto, visited):
+    """visited_grids holds exactly the grid ids of the finished trials of this grid among the first `upto` listed trials."""
+    V = val_sort()
+    i, j = z3.Int("vi_i"), z3.Int("vi_j")
+    t = eng.list_get(st, trials, i)
+    _, gid = _gattr(eng, st, t, "grid_id")
+    stt = eng.get_field(st, t, "state").term
+    fin_i = z3.And(0 <= i, i < upto.term, _counted(eng, st, self_sv, t), stt != 0, stt != 4)
+    e = eng.list_get(st, visited, j).term
+    return SV(KBool, z3.And(
+        qforall([j], z3.Implies(z3.And(0 <= j, j < eng.list_len(st, visited)), z3.Exists([i], z3.And(fin_i, V.i(gid) == e))), patterns=[e]),
+        qforall([i], z3.Implies(fin_i, z3.Exists([j], z3.And(0 <= j, j < eng.list_len(st, visited), e == V.i(gid)))), patterns=[t.term])))
